@@ -44,8 +44,12 @@ MixedTimeLocks(m) == ~TL(m).k
 (* Static satisfiability: some world (all assets, some lock setting) has a *)
 (* satisfaction.                                                           *)
 (***************************************************************************)
-Satisfiable(m, ctx) ==
-  \E w \in {x \in WorldsOfCtx(m, ctx) : x.sigs = KeysOf(m) /\ x.pre = HashesOf(m)} : SatSet(m, w, ctx) # {}
+\* (the worlds holding every asset are built directly: filtering WorldsOfCtx would enumerate all
+\* subsets of the keys first, 2^17 of them for a 17-key multisig)
+FullWorlds(m, ctx) ==
+  {[sigs |-> KeysOf(m), pre |-> HashesOf(m), env |-> Env(RulesOf(ctx), TRUE, l, s, v)]
+     : l \in LockCands(m), s \in SeqCands(m), v \in VerCands(m)}
+Satisfiable(m, ctx) == \E w \in FullWorlds(m, ctx) : SatSet(m, w, ctx) # {}
 
 \* The defect behind `allow_unsatisfiable` is structural: no satisfaction exists even when every
 \* time lock, taken on its own, is met.  A script whose only obstacle is that its paths need
